@@ -114,10 +114,23 @@ def check_send_message(ctx, model, spec):
         q["arrivals"] = arr
         extra.append(q)
     scs += extra
+    n_plain = len(scs)
+    # (a) the REQUEST carries legal Python values that are not JSON-native (paths, decimals, sets, bytes): what the request
+    #     looked like has no bearing on how the error that answers it is classified;
+    # (b) the peer answered with the error and hung up before the caller got to read it: the buffered error is still THE answer
+    for i, c in enumerate(codes[::max(1, len(codes) // 40)]):
+        for odd in ("path", "decimal", "set", "bytes", "nested"):
+            scs.append({"D": 200, "me": ("a", "123", None)[i % 3], "has_cb": False, "cancel": None, "params": {"$odd": odd},
+                        "arrivals": [(3, ("res", ("str", "zz-other"), 1)), (5, ("err", ("me",), c, datas[i % len(datas)])),
+                                     (9, ("res", ("me",), 2))]})
+        for pre in ([], [(-1, ("notif",))], [(-1, ("res", ("str", "zz-other"), 1)), (-1, ("notif",))]):
+            scs.append({"D": 200, "me": ("a", "123", None)[i % 3], "has_cb": False, "cancel": None, "params": None,
+                        "closed_before_call": True,
+                        "arrivals": [(0, ("notif",))] + pre[:1] + [(0, ("err", ("me",), c, datas[i % len(datas)]))]})
     runs = A.check_scenarios(ctx, scs, model, spec, {"c01"})
     reqs = []
     for sc, obs in runs:
-        code = sc["arrivals"][1][1][2]
+        code = [m for _t, m in sc["arrivals"] if m[0] == "err"][0][2]
         reqs.append((sc, obs, code))
     res = spec.run([call(2, str(code), A.enc_outcome(obs["out"])) for _sc, obs, code in reqs if obs["out"]])
     it = iter(res)
@@ -126,9 +139,12 @@ def check_send_message(ctx, model, spec):
             continue
         ok = next(it)
         ctx.spec_total += 1
-        ctx.count("send_message-error:" + ("data" if sc["arrivals"][1][1][3] is not None else "no-data"))
+        em = [m for _t, m in sc["arrivals"] if m[0] == "err"][0]
+        ctx.count("send_message-error:" + ("data" if em[3] is not None else "no-data"))
         ctx.count("logging:" + ("DEBUG" if sc.get("debug_log") else "off"))
-        ctx.count("error-object:" + ("without-message" if len(sc["arrivals"][1][1]) > 4 else "complete"))
+        ctx.count("error-object:" + ("without-message" if len(em) > 4 else "complete"))
+        ctx.count("request-params:" + ("not-json-native" if isinstance(sc.get("params"), dict) and "$odd" in sc["params"] else "json"))
+        ctx.count("peer:" + ("hung-up-after-answering" if sc.get("closed_before_call") else "stays"))
         if not ok:
             klass = "error-returned-normally" if obs["out"][0] == "ret" else \
                     "error-raised-with-wrong-class-or-code" if obs["out"][0] == "err" else "error-response-ignored"
